@@ -182,6 +182,9 @@ func cmdCheck(args []string) {
 	// closure: every writer of a guarded / immutable field of the types involved is under contract
 	closure := P.closureObligations(*prop)
 
+	// global-write inventory: every (package-level variable, writer) pair must be declared
+	closure = append(closure, P.globalInventory(*prop)...)
+
 	// bounded stand-ins (labelled, never counted as discharged)
 	bounded := runBounded(*repo, *prop)
 
@@ -437,6 +440,9 @@ func packagesWithProperty(repo, specDir, prop string) ([]string, error) {
 		for _, l := range strings.Split(string(data), "\n") {
 			t := strings.TrimSpace(l)
 			if strings.HasPrefix(t, "props ") && hasProp(strings.Fields(t)[1:], prop) {
+				return true
+			}
+			if f := strings.Fields(t); len(f) >= 2 && f[0] == "global_writer" && f[1] == prop {
 				return true
 			}
 		}
